@@ -1329,17 +1329,25 @@ package compose
 //@ func (*WorkflowNode).checkAndAddMappedPath
 //@   props C15
 //@   requires n != nil && n.mappedFieldPath != nil
-//@   requires[paths_nonempty] forall(j int :: 0 <= j && j < len(paths) ==> len(paths[j]) > 0)
 //@   requires[trie_shape] trieShape()
 //@   requires[outer_separate] forall(mm map[string]any, k string :: in(k, mm) && is(mm[k], "map[string]any") ==> unbox(mm[k], "map[string]any") != n.mappedFieldPath)
 //@   modifies forall(mm map[string]any, k string :: !old(in(k, mm)) ==> mm[k]), fresh()
 //@   ensures[trie_shape] trieShape()
 //@   ensures[entries_kept] @C15 forall(mm map[string]any, k string :: !fresh(mm) && old(in(k, mm)) ==> in(k, mm) && mm[k] == old(mm[k]))
-//@   ensures[whole_after_part] @C15 old(in("", n.mappedFieldPath)) && len(paths) == 0 ==> result != nil
+//@   ensures[whole_after_part] @C15 old(in("", n.mappedFieldPath)) && (len(paths) == 0 || exists(j int :: 0 <= j && j < len(paths) && len(paths[j]) == 0)) ==> result != nil
+//@   ensures[whole_together_with_a_part] @C15 len(paths) > 1 && (exists(j int :: 0 <= j && j < len(paths) && len(paths[j]) == 0)) ==> result != nil
+//@   ensures[whole_recorded] @C15 (len(paths) == 0 || (len(paths) == 1 && len(paths[0]) == 0)) && result == nil ==> in("", n.mappedFieldPath) && is(n.mappedFieldPath[""], "struct{}")
+//@   note an empty target path (FromField: the whole input) is a prefix of every path: it is an overlap with any other target, in one call or across calls
 //@   ensures[part_after_whole] @C15 old(in("", n.mappedFieldPath)) && old(is(n.mappedFieldPath[""], "struct{}")) ==> result != nil
 //@   ensures[top_level_prefix] @C15 old(hasTrie(n)) && result == nil ==> forall(j int :: 0 <= j && j < len(paths) && len(paths[j]) == 1 ==> !old(in(paths[j][0], trieRoot(n))))
 //@   ensures[top_level_terminal] @C15 old(hasTrie(n)) && result == nil ==> forall(j int :: 0 <= j && j < len(paths) && old(in(paths[j][0], trieRoot(n))) ==> !old(is(trieRoot(n)[paths[j][0]], "struct{}")))
 //@   loop 1:
+//@     modifies nothing()
+//@     invariant[no_whole_so_far] forall(j int :: 0 <= j && j < $i ==> len(paths[j]) > 0)
+//@     invariant[trie_shape] trieShape()
+//@     invariant[outer_separate] forall(mm map[string]any, k string :: in(k, mm) && is(mm[k], "map[string]any") ==> unbox(mm[k], "map[string]any") != n.mappedFieldPath)
+//@     invariant[untouched] forall(mm map[string]any, k string :: in(k, mm) == old(in(k, mm)) && mm[k] == old(mm[k]))
+//@   loop 2:
 //@     modifies forall(mm map[string]any, k string :: !old(in(k, mm)) ==> mm[k]), fresh()
 //@     invariant[outer_separate] forall(mm map[string]any, k string :: in(k, mm) && is(mm[k], "map[string]any") ==> unbox(mm[k], "map[string]any") != n.mappedFieldPath)
 //@     invariant[root] hasTrie(n) && trieRoot(n) != nil && (old(hasTrie(n)) ==> trieRoot(n) == old(trieRoot(n)))
@@ -1347,7 +1355,7 @@ package compose
 //@     invariant[entries_kept] forall(mm map[string]any, k string :: !fresh(mm) && old(in(k, mm)) ==> in(k, mm) && mm[k] == old(mm[k]))
 //@     invariant[top_level_prefix] old(hasTrie(n)) ==> forall(j int :: 0 <= j && j < $i && len(paths[j]) == 1 ==> !old(in(paths[j][0], trieRoot(n))))
 //@     invariant[top_level_terminal] old(hasTrie(n)) ==> forall(j int :: 0 <= j && j < $i && old(in(paths[j][0], trieRoot(n))) ==> !old(is(trieRoot(n)[paths[j][0]], "struct{}")))
-//@   loop 2:
+//@   loop 3:
 //@     modifies forall(mm map[string]any, k string :: !old(in(k, mm)) ==> mm[k]), fresh()
 //@     invariant[traversed] traversed == nil || fresh(traversed)
 //@     invariant[first_new] $i >= 1 && old(hasTrie(n)) ==> forall(k string :: k == targetPath[0] ==> (len(targetPath) == 1 ==> !old(in(k, trieRoot(n)))) && (old(in(k, trieRoot(n))) ==> !old(is(trieRoot(n)[k], "struct{}"))))
